@@ -304,6 +304,17 @@ def main_check(check, argv=None):
             print('   message was: %s' % msg)
             rc = max(rc, 2)
             continue
+        pre = None
+        for k in known:
+            if k.get('class') == cls and k.get('status', 'open') == 'open':
+                fn = matchers.get(k.get('matcher'))
+                if fn and k.get('match_unshrunk', True) and fn(plan, cls, msg):
+                    pre = k
+                    break
+        if pre:
+            known_hit[pre['what']] = known_hit.get(pre['what'], 0) + len(lst)
+            print('KNOWN-FINDING: property=%s %s' % (check.pid, pre['what']))
+            continue
         small, nruns = shrink(check, plan, cls, check.shrink_budget)
         h, viol, res = evaluate(check, small)
         smsg = [m for c, m in viol if c == cls]
